@@ -67,16 +67,19 @@ GapToks(s, g) ==
     [] g = "ISX"  -> << <<"EL", 0>>, <<"ER", 0>>, <<"S">>, <<"X">> >>   \* stop mid-sync with pending entries
     [] g = "IX"   -> << <<"EL", 0>>, <<"ER", 0>>, <<"X">> >>
     [] g = "Q"   -> << <<"Q">> >>
+    [] g = "PX"  -> <<>>
     [] g \in MidGaps -> << <<"S">>, <<"S">> >>          \* (the operation itself is armed, see GenUser) two sync steps follow
 
 GenInit ==
   /\ tr = <<Base, Base>> /\ expect = Base /\ exOK = TRUE
   /\ written = Cells(Base) \ {DIR} /\ killed = {} /\ dropped = {} /\ merged = {}
   /\ chg = <<{}, {}>> /\ anc = <<{}, {}>> /\ origin = 0 /\ win = EmptyWin /\ tags = {}
-  /\ h = <<>> /\ nops = 0 /\ down = FALSE
+  \* "PX" in Gaps: the history may begin with a stop - the first session ends before any user has done anything
+  /\ h \in (IF "PX" \in Gaps THEN {<<>>, << <<"X">> >>} ELSE {<<>>}) /\ nops = 0 /\ down = (h # <<>>)
 
 GenUser(s, op, g) ==
   /\ nops < MaxOps
+  /\ g # "PX"
   /\ (g \in MidGaps => nops > 0)         \* a mid-step operation needs earlier work for the engine to be in the middle of
   /\ LET t2 == Apply(tr[s], op)
          last == nops + 1 = MaxOps
